@@ -1,10 +1,12 @@
 import Tahoe.Base.DrvUtil
 import Tahoe.Mutable.Serializer
+import Tahoe.Mutable.Routing
 /-! Driver for C13.
   `ser op…`  ops: q (request, asynchronous callable) | qo / qf (callable completes synchronously ok / failing)
              | f:<i>:o / f:<i>:f (inner Deferred of op i fires) | t (eventual-queue turn)
              | r:<i> (attempt of op i ends in UncoordinatedWriteError, next attempt begins) | u:<i> (…and the backoffer gives up)
      → `<log> | <waiting> | <content>`  with log tokens S<i> F<i><o|f> D<i><o|f> R<i>
+  `route node <op>` → `serialized=<b> reenters=<b>`; `route dir <op>` → the node operations it is built on; `route names` → all ops of the tables
   `nm call…` calls: <I|M>:<cap>:<u|i|m>   → node object ids, comma separated -/
 open Tahoe.Drv Tahoe.Serializer
 
@@ -54,7 +56,29 @@ def parseCall (t : String) : Option (Bool × String × Kind) :=
     pure (d, cap, k)
   | _ => none
 
+open Tahoe.Routing in
+def nodeOpName : NodeOp → String
+  | .downloadBestVersion => "download_best_version" | .overwrite => "overwrite" | .upload => "upload"
+  | .modify => "modify" | .getServermap => "get_servermap"
+
+open Tahoe.Routing in
+def dirOpName : DirOp → String
+  | .list => "list" | .hasChild => "has_child" | .get => "get" | .getChildAndMetadata => "get_child_and_metadata"
+  | .getMetadataFor => "get_metadata_for" | .setMetadataFor => "set_metadata_for" | .setUri => "set_uri"
+  | .setChildren => "set_children" | .setNode => "set_node" | .setNodes => "set_nodes" | .addFile => "add_file"
+  | .delete => "delete" | .createSubdirectory => "create_subdirectory" | .moveChildWithin => "move_child_to"
+
 def handle : List String → String
+  | ["route", "node", name] =>
+    match Tahoe.Routing.allNodeOps.find? (fun o => nodeOpName o == name) with
+    | some o => s!"serialized={Tahoe.Routing.serialized o} reenters={Tahoe.Routing.bodyEnqueues o}"
+    | none => "bad-op"
+  | ["route", "dir", name] =>
+    match Tahoe.Routing.allDirOps.find? (fun d => dirOpName d == name) with
+    | some d => ",".intercalate ((Tahoe.Routing.dirOpCalls d).map nodeOpName)
+    | none => "bad-op"
+  | ["route", "names"] =>
+    " ".intercalate (Tahoe.Routing.allNodeOps.map nodeOpName) ++ " | " ++ " ".intercalate (Tahoe.Routing.allDirOps.map dirOpName)
   | "ser" :: ops => match ops.mapM parseOp with
     | some l => showSt (runOps l)
     | none => "bad-op"
